@@ -810,6 +810,54 @@ fn run<A: ArchOps>(lines: Vec<String>, hang_ms: u64) {
                     _ => "bad".into(),
                 }
             }
+            "manual" => {
+                // the loop a caller writes by hand with unwind_frame (oracle for C17)
+                let uid = t.next();
+                let cid = t.next();
+                let pc = t.u64();
+                let mut regs = A::parse_regs(&mut t);
+                let memid = t.next();
+                let n = t.usize();
+                match (unws.get(uid), caches.get_mut(cid), mems.get(memid)) {
+                    (Some(u), Some(c), Some(mem)) => {
+                        let mut rs = reader(mem);
+                        let mut outv: Vec<String> = Vec::new();
+                        let r = catch_unwind(AssertUnwindSafe(|| {
+                            let mut addr = FrameAddress::from_instruction_pointer(pc);
+                            let mut done = false;
+                            for i in 0..n {
+                                if i == 0 {
+                                    outv.push(format!("ok ip 0x{:x}", pc));
+                                    continue;
+                                }
+                                if done {
+                                    outv.push("ok none".into());
+                                    continue;
+                                }
+                                match A::unwind(u, addr, &mut regs, c, &mut rs) {
+                                    Ok(Some(ra)) => match FrameAddress::from_return_address(ra) {
+                                        Some(fa) => {
+                                            addr = fa;
+                                            outv.push(format!("ok ra 0x{:x}", ra));
+                                        }
+                                        None => outv.push("err ReturnAddressIsNull".into()),
+                                    },
+                                    Ok(None) => {
+                                        done = true;
+                                        outv.push("ok none".into());
+                                    }
+                                    Err(e) => outv.push(fmt_err(&e)),
+                                }
+                            }
+                        }));
+                        if r.is_err() {
+                            outv.push(classify_panic());
+                        }
+                        format!("iter {}", outv.join(" | "))
+                    }
+                    _ => "bad".into(),
+                }
+            }
             "exec" => guarded(|| A::exec(&mut t, &mems)),
             "analyze" => {
                 let kind = match t.next() {
